@@ -74,6 +74,22 @@ CLAIMS = {
         "text": "State-machine discipline of resolve_host_all's unfold closure on all paths: closed checked first and set before every terminal item, ResolveBoth needs both stored errors, NoResponse needs !yielded, yielded set exactly on address yields, per-family symmetry (own address kind, own error slot), terminal branch requires both lookups finished; literal hosts give single-item streams. Termination/timing not decided.",
         "technique": "dominance of flag writes over terminal yields, success-edge dominance on field tests, select!-arm table agreement (v4/v6)",
     },
+    "C36": {
+        "text": "Provenance: ZoneStore::insert is called only from the HTTP publish handler with exactly the Ok value of from_relay_payload(key parsed from the path, body) (authenticity then follows from C32); store/cache keys derive from the packet; CachedZone is built only through one converter in which a record is inserted only off the SOA/NS arms and on the equal edge of last-label == z32(packet key). Hickory's answer assembly is not decided.",
+        "technique": "who-calls + copy-chain provenance + success-edge dominance (with materialised-condition tracking for matches!)",
+    },
+    "C37": {
+        "text": "Decides the shape of the Upsert arm: ack(false) exactly on stored.more_recent_than(offered) with that orientation and without table mutation; the update path writes serialize(offered) then acks true; more_recent_than compares self>other on timestamp, tie-break on encoded packet. Permutation invariance over histories is not decided.",
+        "technique": "match-arm regions on MIR, success-edge dominance, operand orientation by derives-from",
+    },
+    "C38": {
+        "text": "Static lockset atomic-set rule across await: the resolve path's [store read -> cache fill] and the publish path's [store write -> cache invalidation] share no continuously held cache guard and the publish path does not install the new packet; reported once as a recorded known finding (stale zone served after an acknowledged publish).",
+        "technique": "guard-lifetime lockset on coroutine MIR (held-at-call across Yield), derives-from of the fill value",
+    },
+    "C39": {
+        "text": "Decides: only handle_message (from run0) mutates the redb tables; row/index pairing on every path of Upsert and CheckExpired incl. that eviction compares the *stored* packet's timestamp with the cut-off; every non-error exit of the batch loop commits after dropping the tables; serialize/deserialize agree on the prefix. Crash durability (redb) and cut-off arithmetic are not decided.",
+        "technique": "who-writes over redb mutators, must-pass-through (no Ok exit bypassing a paired operation) on match-arm regions, derives-from of comparison operands",
+    },
 }
 
 _PENDING = "rules for this property are not implemented yet in this revision (see DESIGN.md §4 for the planned structural clauses)"
